@@ -522,6 +522,149 @@ impl Space for Fresh {
 }
 
 // -------------------------------------------------------------------------------------------------
+// Two encrypted saves that overlap in time, to DIFFERENT destinations in the same directory.
+//
+// Save A is suspended at a hook point inside helper::crypt::encrypt (13: A has just created its compound file,
+// 14: A has written it completely and is about to return to the caller, who moves it into place); save B - another
+// entry point, another password, another package - runs to completion right there, on the same thread; then A
+// continues. Both files must satisfy every clause for their OWN password and their OWN package. This is the
+// deterministic enumeration of "B ran inside A's create-to-rename window" (one suspension, B atomic): 3 x 2 x 3 cases.
+const OV_ENTRIES: [EntryPoint; 3] = [EntryPoint::SetPassword, EntryPoint::Write, EntryPoint::WriteLight];
+const OV_SITES: [(u32, &str); 2] = [(13, "A-has-created-its-compound-file"), (14, "A-has-written-its-compound-file")];
+
+fn ov_book(who: usize) -> umya_spreadsheet::Spreadsheet {
+    let mut book = build_book();
+    if who == 1 {
+        book.get_sheet_mut(&0).unwrap().get_cell_mut("F6").set_value("only in the workbook of save B");
+    }
+    book
+}
+fn ov_payload(who: usize) -> Vec<u8> {
+    synthetic(if who == 0 { 5000 } else { 9001 })
+}
+fn ov_pw(who: usize) -> Pw {
+    Pw { text: (if who == 0 { "password of A" } else { "the other password (B)" }).to_string(), tag: None }
+}
+/// performs one save; returns (reference package, result)
+fn ov_save(entry: EntryPoint, who: usize, dir: &str) -> (Vec<u8>, Result<Result<(), String>, String>) {
+    let out = format!("{}/out{}.xlsx", dir, ["A", "B"][who]);
+    let pw = ov_pw(who).text;
+    match entry {
+        EntryPoint::SetPassword => {
+            let payload = ov_payload(who);
+            let inp = format!("{}/in{}.bin", dir, ["A", "B"][who]);
+            std::fs::write(&inp, &payload).expect("write source");
+            let r = guarded(move || umya_spreadsheet::writer::xlsx::set_password(Path::new(&inp), Path::new(&out), &pw).map_err(|e| format!("{:?}", e)));
+            (payload, r)
+        }
+        _ => {
+            let light = entry == EntryPoint::WriteLight;
+            let reference = crate::dump::save_bytes(&ov_book(who), light).unwrap_or_default();
+            let book = ov_book(who);
+            let r = guarded(move || {
+                let r = if light { umya_spreadsheet::writer::xlsx::write_with_password_light(&book, Path::new(&out), &pw) } else { umya_spreadsheet::writer::xlsx::write_with_password(&book, Path::new(&out), &pw) };
+                r.map_err(|e| format!("{:?}", e))
+            });
+            (reference, r)
+        }
+    }
+}
+struct OvCtx {
+    site: u32,
+    fired: bool,
+    entry_b: EntryPoint,
+    dir: String,
+    res_b: Option<(Vec<u8>, Result<Result<(), String>, String>)>,
+}
+static OV: std::sync::Mutex<Option<OvCtx>> = std::sync::Mutex::new(None);
+fn ov_hook(site: u32) {
+    let job = {
+        let mut g = OV.lock().unwrap();
+        match g.as_mut() {
+            Some(c) if c.site == site && !c.fired => {
+                c.fired = true;
+                Some((c.entry_b, c.dir.clone()))
+            }
+            _ => None,
+        }
+    };
+    if let Some((entry_b, dir)) = job {
+        let r = ov_save(entry_b, 1, &dir);
+        if let Some(c) = OV.lock().unwrap().as_mut() {
+            c.res_b = Some(r);
+        }
+    }
+}
+struct Overlap {
+    tier: Tier,
+}
+impl Overlap {
+    fn locate(i: u64) -> (EntryPoint, (u32, &'static str), EntryPoint) {
+        let b = OV_ENTRIES[(i % 3) as usize];
+        let site = OV_SITES[((i / 3) % 2) as usize];
+        (OV_ENTRIES[(i / 6) as usize], site, b)
+    }
+}
+impl Space for Overlap {
+    fn len(&self) -> u64 {
+        18
+    }
+    fn describe(&self, i: u64) -> Value {
+        let (a, site, b) = Self::locate(i);
+        json!({"kind": "overlapping-encrypted-saves", "save_A": a.name(), "suspended_at": site.1, "save_B": b.name(), "destinations": "outA.xlsx and outB.xlsx in one directory"})
+    }
+    fn tags(&self, i: u64) -> Vec<String> {
+        let (a, site, b) = Self::locate(i);
+        vec!["overlap".into(), format!("A:{}", a.name()), format!("B:{}", b.name()), format!("at:{}", site.1)]
+    }
+    fn run(&self, i: u64, sink: &mut Sink) {
+        let (a, site, b) = Self::locate(i);
+        let tags_owned = self.tags(i);
+        let tags: Vec<&str> = tags_owned.iter().map(|s| s.as_str()).collect();
+        let case = self.describe(i);
+        let dir = format!("{}/{}-overlap-{}", work_dir(PROP), self.tier.name(), i);
+        let _ = std::fs::remove_dir_all(&dir);
+        let _ = std::fs::create_dir_all(&dir);
+        *OV.lock().unwrap() = Some(OvCtx { site: site.0, fired: false, entry_b: b, dir: dir.clone(), res_b: None });
+        umya_spreadsheet::verif_hook::install(ov_hook);
+        sink.beat.note(&format!("C14 overlap case {}", i));
+        let (ref_a, res_a) = ov_save(a, 0, &dir);
+        umya_spreadsheet::verif_hook::uninstall();
+        let ctx = OV.lock().unwrap().take().unwrap();
+        sink.evaluations += 1;
+        let Some((ref_b, res_b)) = ctx.res_b else {
+            sink.violations.push(Violation::new("harness", "suspension-point-not-reached", &tags, case.clone(), format!("save A ({}) never passed the hook point {} - the hook in helper::crypt::encrypt is gone", a.name(), site.0)));
+            let _ = std::fs::remove_dir_all(&dir);
+            return;
+        };
+        let helper = Encrypt { tier: self.tier, cases: vec![] };
+        for (who, entry, reference, res) in [(0usize, a, ref_a, res_a), (1, b, ref_b, res_b)] {
+            let name = ["A", "B"][who];
+            match res {
+                Err(m) => sink.violations.push(Violation::new("entry", &format!("panic:{}", panic_class(&m)), &tags, case.clone(), format!("save {} ({}) panicked: {}", name, entry.name(), m))),
+                Ok(Err(e)) => sink.violations.push(Violation::new("entry", "call-failed", &tags, case.clone(), format!("save {} ({}) of two overlapping saves returned {}", name, entry.name(), e))),
+                Ok(Ok(())) => {
+                    let c = Case { entry, pw: ov_pw(who), payload: Payload::RealStd };
+                    let mut cj = case.clone();
+                    cj["checked_file"] = json!(format!("out{}.xlsx (save {})", name, name));
+                    let _ = helper.check_file(&format!("{}/out{}.xlsx", dir, name), &c, &reference, who as u32, &cj, &tags, sink);
+                }
+            }
+        }
+        let mut left: Vec<String> = std::fs::read_dir(&dir).map(|d| d.filter_map(|e| e.ok()).map(|e| e.file_name().to_string_lossy().to_string()).collect()).unwrap_or_default();
+        left.sort();
+        sink.obs(&format!("overlap|{}|{}|{}|{:?}", a.name(), site.1, b.name(), left));
+        for f in &left {
+            if !["outA.xlsx", "outB.xlsx", "inA.bin", "inB.bin"].contains(&f.as_str()) {
+                sink.violations.push(Violation::new("leftover", "temporary-file-left-behind", &tags, case.clone(), format!("after both saves returned Ok the directory holds {:?}", left)));
+                break;
+            }
+        }
+        let _ = std::fs::remove_dir_all(&dir);
+    }
+}
+
+// -------------------------------------------------------------------------------------------------
 pub fn space(tier: Tier, id: &str) -> Option<Box<dyn Space>> {
     if let Some(r) = reversed_of(id, |base| space(tier, base)) {
         return r;
@@ -529,6 +672,7 @@ pub fn space(tier: Tier, id: &str) -> Option<Box<dyn Space>> {
     match id {
         "encrypt" => Some(Box::new(Encrypt { tier, cases: cases(tier) })),
         "freshness" => Some(Box::new(Fresh { tier, n: cases(tier).len() as u64 })),
+        "overlap" => Some(Box::new(Overlap { tier })),
         _ => None,
     }
 }
@@ -542,7 +686,7 @@ fn run(ctx: &Ctx) -> i32 {
         eprintln!("MACHINERY: C14 oracle self-test failed: {}", e);
         return 2;
     }
-    let ids = ["encrypt", "freshness", "encrypt~rev"];
+    let ids = ["encrypt", "freshness", "encrypt~rev", "overlap"];
     let spaces = ids.iter().map(|id| (*id, space(ctx.tier, id).unwrap())).collect();
     let cs = cases(ctx.tier);
     let pws = passwords(ctx.tier);
